@@ -1,18 +1,19 @@
 """C16 - Sylvester and Green's-function solvers return solutions of their equations."""
 from .common import Decision, run_units
+from .secondq_props import specs_secondq
 from .series_props import specs_solver, fold_canaries
 
 
 def check(tier, seed):
     d = Decision("C16", tier, seed)
-    d.add_units(fold_canaries(run_units(specs_solver(tier))))
+    d.add_units(fold_canaries(run_units(specs_solver(tier) + specs_secondq(tier))))
     d.assumptions += [
         "A-NP2 pointwise models of the numpy / scipy.sparse / sympy-matrix functions used by solve_sylvester_diagonal (listed under assumed_contracts_used)",
         "np.isclose: equal values are close (only this direction is used)",
         "COO representation of a sparse right-hand side is canonical (no duplicate entries)",
     ]
     d.not_decided += [
-        "direct solver (solve_sylvester_direct, direct_greens_function, _constrain_matrix), KPM solver and the second-quantized solver are not under "
+        "direct solver (solve_sylvester_direct, direct_greens_function, _constrain_matrix) and KPM solver are not under "
         "deductive contract in this check: they are covered by the bounded battery section 'solvers' only (scipy LU / KPM convergence are external); "
         "KPM accuracy is a numerical-analysis statement outside this technique",
         "implicit-mode branches of solve_sylvester_diagonal (vecs_implicit) are not instantiated",
@@ -20,6 +21,8 @@ def check(tier, seed):
     d.explanation = ("solve_sylvester_diagonal.solve_sylvester is executed symbolically from the real AST in a pointwise array model for dense, sparse and "
                      "symbolic right-hand sides with symbolic block sizes, complex energies, tolerance and block indices: the returned element is proved "
                      "equal to Y_ab/(E_a-F_b) where |E_a-F_b| > atol and 0 elsewhere (sympy: where E_a = F_b), the first-use check raises exactly for "
-                     "shared energies and records the pair only on success; the formula is proved to solve E_a V - V F_b = Y (nlsat).")
+                     "shared energies and records the pair only on success; the formula is proved to solve E_a V - V F_b = Y (nlsat).  Second-quantized solver: solve_scalar is "
+                     "proved to satisfy H_ii V - V H_jj = Y on every occupation state for an arbitrary term (contracts/secondq.py), and solve_sylvester_2nd_quant to fill every "
+                     "entry from the scalar problem of its row and column energies.")
     d.run_battery("bd_battery.py", ["solvers"], "matrices of size <= 30, 2 explicit blocks, real/complex, degenerate explicit levels, KPM with 0/1/5 auxiliary vectors; see replay/bd_battery.py")
     return d.finish(level="proof", trusted_base=["contracts/sylvester.py", "pyvc/pw.py"])
